@@ -80,6 +80,9 @@ def extract_facts():
     rc, out, _ = run(["go", "build", "-o", exe2, "./cmd/go2lean"], cwd=HARNESS, env=GOENV, timeout=600)
     if rc != 0:
         return False, "building the Go->Lean translator failed:\n" + out, {}
+    rc, out, _ = run([exe2, "-selftest"], timeout=120)
+    if rc != 0:
+        return False, "the translator's alias-analysis self test failed:\n" + out, {}
     rc, out, _ = run([exe2, "-repo", REPO, "-out", os.path.join(LEAN, "Gotlcp/Generated/Src.lean")], timeout=120)
     if rc != 0:
         return False, "Go->Lean translation failed (source does not parse?):\n" + out, {}
